@@ -187,6 +187,13 @@ class ArgumentMapping:
             name = definition_info.args_with_defaults[index][0]
             if name in self.param_dict:
                 args.append(self.param_dict[name])
+            elif (
+                self.args_arg
+                and definition_info.args_with_defaults[index][1] is not None
+            ):
+                # extra positional arguments follow; they would be bound to
+                # this parameter unless its default is passed explicitly
+                args.append(definition_info.args_with_defaults[index][1])
             else:
                 for i in range(index, len(definition_info.args_with_defaults)):
                     name = definition_info.args_with_defaults[i][0]
